@@ -270,7 +270,9 @@ def oracle_single(ck: core.Check) -> dict:
                 full = [s for s in L.shapes_upto(mr, [1, 2, 3, "N", None]) if s is not None]
                 lo = [s for s in full if len(s) <= 1]
                 hi = [s for s in full if len(s) > 1]
-                shape_sets.append(lo + rng.sample(hi, min(ck.pick(10, 60), len(hi))))
+                always = [s for s in ([2, 3, 2], ["N", 3, 2], [2, None, 3], [3, 2], ["N", 2]) if len(s) <= mr]
+                picked = rng.sample(hi, min(ck.pick(10, 60), len(hi)))
+                shape_sets.append(lo + always + [s for s in picked if s not in always])
             else:
                 shape_sets.append([s for s in ([], [2], ["K"], [None], [1, 2]) if len(s) <= mr])
         for a in op.attr_classes():
@@ -310,9 +312,9 @@ def oracle_single(ck: core.Check) -> dict:
 def oracle_programs(ck: core.Check) -> dict:
     rng = ck.rng
     stats = {"programs": 0, "build_failed": 0, "runs": 0, "runs_refused_by_runtime": 0, "vars_checked": 0,
-             "ops": {}, "with_loop": 0, "with_if": 0, "with_inline": 0, "with_function": 0, "with_function-two-types": 0,
+             "ops": {}, "with_loop": 0, "with_if": 0, "with_inline": 0, "with_function": 0, "with_function-two-types": 0, "with_scan": 0,
              "body_vars_exposed": 0, "runtime_disagreements": 0, "disagreement_samples": []}
-    n = ck.pick(260, 2600)
+    n = ck.pick(260, 8000)
     for i in range(n):
         seed = rng.randrange(1 << 30)
         case = {"kind": "program", "seed": seed, "size": rng.randrange(3, 9)}
@@ -328,7 +330,7 @@ def oracle_programs(ck: core.Check) -> dict:
         stats["runs_refused_by_runtime"] += st["refused"]
         for o, c in st["ops"].items():
             stats["ops"][o] = stats["ops"].get(o, 0) + c
-        for k in ("loop", "if", "inline", "function", "function-two-types"):
+        for k in ("loop", "if", "inline", "function", "function-two-types", "scan"):
             stats["with_" + k] += int(st["ops"].get(k, 0) > 0)
         ck.count(("program", seed) if st["vars_checked"] else None)
         if i < 2:
